@@ -241,6 +241,7 @@ pub open spec fn ext_p(a: Map<PathBuf, Project>, b: Map<PathBuf, Project>) -> bo
     ensures
         r is Ok ==> final(projects)@.contains_key(project_dir),
         ext_p(old(projects)@, final(projects)@),
+        /*[C14.load-once]*/ old(projects)@.contains_key(project_dir) ==> final(projects)@ == old(projects)@ && r is Ok,
         /*[C18.canonical]*/ all_canonical(final(projects)@),
 //@pre
         broadcast use group_keys;
